@@ -29,6 +29,7 @@ func runC19(r *an.Run) {
 	c19TokenAgreement(r)
 	c19LineMap(r)
 	c19RejectionNoRewrite(r)
+	lineInfoReceiver(r, "R3-line-map")
 }
 
 var positionedHelpers = map[string]string{
